@@ -100,6 +100,16 @@ theorem parse_str_roundtrip (hh : ∀ b, 4 ≤ (hash256 b).length) (m : Int) (kr
   parse_repr_rel hash256 hmac h160 (b58RoundTrip hash256 hh) hh
     (fun _ _ hb s hs => sec_roundtrip (EC.parsePoint_valid hb) s hs) m krs cs srt d hc wf
 
+/-- the keys in a descriptor carry only the plain BIP32 version bytes: whatever SLIP-132 prefix (ypub, zpub, Ypub,
+    Zpub, upub, vpub, Upub, Vpub) a cosigner's key was supplied with, the xpub the constructor stores — the one the text
+    shows, the records are ordered by and the checksum covers — parses to a key whose version is XPUB[network] -/
+theorem descriptor_keys_plain_version (hh : ∀ b, 4 ≤ (hash256 b).length) (m : Int) (krs : List KeyRecord) (cs : Str)
+    (srt : Bool) (d : Desc) (hc : construct hash256 m krs cs srt = some d) :
+    ∀ kr ∈ d.keyRecords, ∃ pk, HDPub.parse hash256 kr.xpubParent = some pk ∧ pk.network = d.network ∧
+      dictGet Gen.hdXpub pk.network = some pk.pubVersion :=
+  construct_plain_versions hash256 (b58RoundTrip hash256 hh)
+    (fun _ _ hb s hs => sec_roundtrip (EC.parsePoint_valid hb) s hs) m krs cs srt d hc
+
 /-- the condition `ReprWF.child` is what parse_full_key_record itself establishes for every record it returns -/
 theorem full_key_record_child_check (s : Str) (kr : KeyRecord)
     (h : parseFullKeyRecord hash256 hmac h160 s = some kr) :
